@@ -24,6 +24,17 @@ type c04Rev struct {
 	Deleted bool   `json:"deleted,omitempty"`
 }
 
+// at most 3 reports per (monitor, signature): the recorder keeps only the first 50 failures overall
+var c04FailCount = map[string]int{}
+
+func c04Fail(rec *vRecorder, monitor, signature string, input any, detail string) {
+	k := monitor + "|" + signature
+	c04FailCount[k]++
+	if c04FailCount[k] <= 3 {
+		rec.Fail(monitor, signature, input, detail)
+	}
+}
+
 // ---- independent (spec-side) reading of canonical ids "<gen>-<digest>" ----
 func c04Split(id string) (int, string) {
 	i := strings.IndexByte(id, '-')
@@ -132,7 +143,7 @@ func (m *c04Mon) wf(where string, snap []c04Rev, input any) bool {
 	present := map[string]bool{}
 	for _, r := range snap {
 		if present[r.ID] {
-			m.rec.Fail("wf_unique_ids", where+":duplicate-id", input, "revision id stored twice: "+r.ID)
+			c04Fail(m.rec, "wf_unique_ids", where+":duplicate-id", input, "revision id stored twice: "+r.ID)
 			return false
 		}
 		present[r.ID] = true
@@ -143,14 +154,14 @@ func (m *c04Mon) wf(where string, snap []c04Rev, input any) bool {
 			continue
 		}
 		if !present[r.Parent] {
-			m.rec.Fail("wf_parent_present", where+":dangling-parent", input, fmt.Sprintf("%s has missing parent %s", r.ID, r.Parent))
+			c04Fail(m.rec, "wf_parent_present", where+":dangling-parent", input, fmt.Sprintf("%s has missing parent %s", r.ID, r.Parent))
 			ok = false
 			continue
 		}
 		gc, _ := c04Split(r.ID)
 		gp, _ := c04Split(r.Parent)
 		if gc <= gp {
-			m.rec.Fail("wf_generation_increases", where+":child-generation-not-above-parent", input, fmt.Sprintf("%s is a child of %s", r.ID, r.Parent))
+			c04Fail(m.rec, "wf_generation_increases", where+":child-generation-not-above-parent", input, fmt.Sprintf("%s is a child of %s", r.ID, r.Parent))
 			ok = false
 		}
 	}
@@ -166,12 +177,12 @@ func (m *c04Mon) winner(where string, t RevTree, input any) {
 	spec := c04SpecWinner(leaves)
 	w0, br0, cf0 := t.winningRevision(m.ctx)
 	if w0 != spec {
-		m.rec.Fail("winner_is_max", where+":winner-not-maximal", input, fmt.Sprintf("winningRevision=%q but the leaf maximising (live, generation, digest) is %q", w0, spec))
+		c04Fail(m.rec, "winner_is_max", where+":winner-not-maximal", input, fmt.Sprintf("winningRevision=%q but the leaf maximising (live, generation, digest) is %q", w0, spec))
 	}
 	for k := 0; k < 6; k++ {
 		w, br, cf := t.copy().winningRevision(m.ctx)
 		if w != w0 || br != br0 || cf != cf0 {
-			m.rec.Fail("winner_perm", where+":winner-depends-on-iteration-order", input, fmt.Sprintf("winningRevision returned %q then %q on the same tree", w0, w))
+			c04Fail(m.rec, "winner_perm", where+":winner-depends-on-iteration-order", input, fmt.Sprintf("winningRevision returned %q then %q on the same tree", w0, w))
 			break
 		}
 	}
@@ -182,7 +193,7 @@ func (m *c04Mon) winner(where string, t RevTree, input any) {
 		}
 	}
 	if br0 != (len(leaves) > 1) || cf0 != (live > 1) {
-		m.rec.Fail("flags_agree", where+":branched-or-conflict-wrong", input, fmt.Sprintf("branched=%v conflict=%v with %d leaves, %d live", br0, cf0, len(leaves), live))
+		c04Fail(m.rec, "flags_agree", where+":branched-or-conflict-wrong", input, fmt.Sprintf("branched=%v conflict=%v with %d leaves, %d live", br0, cf0, len(leaves), live))
 	}
 }
 
@@ -197,19 +208,19 @@ func (m *c04Mon) flags(where string, t RevTree, cur string, flags uint8, input a
 	}
 	fd, fc, fb := flags&channels.Deleted != 0, flags&channels.Conflict != 0, flags&channels.Branched != 0
 	if cur != c04SpecWinner(leaves) {
-		m.rec.Fail("current_is_winner", where+":current-rev-not-winner", input, fmt.Sprintf("current=%q, maximal leaf=%q", cur, c04SpecWinner(leaves)))
+		c04Fail(m.rec, "current_is_winner", where+":current-rev-not-winner", input, fmt.Sprintf("current=%q, maximal leaf=%q", cur, c04SpecWinner(leaves)))
 	}
 	if info := t[cur]; info != nil && fd != info.Deleted {
-		m.rec.Fail("flags_agree", where+":deleted-flag-not-winner", input, fmt.Sprintf("Deleted flag %v but winner %s deleted=%v", fd, cur, info.Deleted))
+		c04Fail(m.rec, "flags_agree", where+":deleted-flag-not-winner", input, fmt.Sprintf("Deleted flag %v but winner %s deleted=%v", fd, cur, info.Deleted))
 	}
 	if fd != (live == 0) {
-		m.rec.Fail("flags_agree", where+":deleted-flag-vs-leaves", input, fmt.Sprintf("Deleted flag %v with %d live leaves", fd, live))
+		c04Fail(m.rec, "flags_agree", where+":deleted-flag-vs-leaves", input, fmt.Sprintf("Deleted flag %v with %d live leaves", fd, live))
 	}
 	if fc != (live > 1) {
-		m.rec.Fail("flags_agree", where+":conflict-flag-vs-leaves", input, fmt.Sprintf("Conflict flag %v with %d live leaves", fc, live))
+		c04Fail(m.rec, "flags_agree", where+":conflict-flag-vs-leaves", input, fmt.Sprintf("Conflict flag %v with %d live leaves", fc, live))
 	}
 	if fb != (len(leaves) > 1) {
-		m.rec.Fail("flags_agree", where+":branched-flag-vs-leaves", input, fmt.Sprintf("Branched flag %v with %d leaves", fb, len(leaves)))
+		c04Fail(m.rec, "flags_agree", where+":branched-flag-vs-leaves", input, fmt.Sprintf("Branched flag %v with %d leaves", fb, len(leaves)))
 	}
 }
 
@@ -450,7 +461,7 @@ func (d *c04Db) run(where string, ops []c04Op) c04DbRun {
 				bodies[op.Hist[0]] = op.Hist[0]
 				// the tree returned by the write must survive store + reload
 				if after, ok := d.load(docid); !ok || c04Key(after.Tree) != c04Key(c04Snapshot(doc.History)) {
-					d.m.rec.Fail("reload_preserves_tree", where+":reload-changed-tree", input, fmt.Sprintf("written %v reloaded %v", c04Snapshot(doc.History), after.Tree))
+					c04Fail(d.m.rec, "reload_preserves_tree", where+":reload-changed-tree", input, fmt.Sprintf("written %v reloaded %v", c04Snapshot(doc.History), after.Tree))
 				}
 			default:
 				if st, _ := base.ErrorAsHTTPStatus(err); st == 409 {
@@ -478,7 +489,7 @@ func (d *c04Db) run(where string, ops []c04Op) c04DbRun {
 				bodies[newRev] = v
 				newT = c04ID(newRev)
 				if after, ok := d.load(docid); !ok || c04Key(after.Tree) != c04Key(c04Snapshot(doc.History)) {
-					d.m.rec.Fail("reload_preserves_tree", where+":reload-changed-tree", input, fmt.Sprintf("written %v reloaded %v", c04Snapshot(doc.History), after.Tree))
+					c04Fail(d.m.rec, "reload_preserves_tree", where+":reload-changed-tree", input, fmt.Sprintf("written %v reloaded %v", c04Snapshot(doc.History), after.Tree))
 				}
 			default:
 				if st, _ := base.ErrorAsHTTPStatus(err); st == 409 {
@@ -517,28 +528,28 @@ func (d *c04Db) run(where string, ops []c04Op) c04DbRun {
 			}
 		}
 		if obs.Cur != c04SpecWinner(obs.Leaves) {
-			d.m.rec.Fail("current_is_winner", where+":current-rev-not-winner", input, fmt.Sprintf("stored current=%q, maximal leaf=%q", obs.Cur, c04SpecWinner(obs.Leaves)))
+			c04Fail(d.m.rec, "current_is_winner", where+":current-rev-not-winner", input, fmt.Sprintf("stored current=%q, maximal leaf=%q", obs.Cur, c04SpecWinner(obs.Leaves)))
 		}
 		if obs.Fd != (live == 0) {
-			d.m.rec.Fail("flags_agree", where+":deleted-flag-vs-leaves", input, fmt.Sprintf("stored Deleted flag %v with %d live leaves", obs.Fd, live))
+			c04Fail(d.m.rec, "flags_agree", where+":deleted-flag-vs-leaves", input, fmt.Sprintf("stored Deleted flag %v with %d live leaves", obs.Fd, live))
 		}
 		if obs.Fc != (live > 1) {
-			d.m.rec.Fail("flags_agree", where+":conflict-flag-vs-leaves", input, fmt.Sprintf("stored Conflict flag %v with %d live leaves", obs.Fc, live))
+			c04Fail(d.m.rec, "flags_agree", where+":conflict-flag-vs-leaves", input, fmt.Sprintf("stored Conflict flag %v with %d live leaves", obs.Fc, live))
 		}
 		if obs.Fb != (len(obs.Leaves) > 1) {
 			if obs.Fb {
-				// flags are computed before pruneRevisions removes an old tombstoned branch; the stale flag stays until the next accepted write
-				d.m.rec.Fail("flags_agree", "branched-flag-stale-after-tombstoned-branch-pruned", input, fmt.Sprintf("stored Branched flag %v with %d leaves", obs.Fb, len(obs.Leaves)))
+				// (defect repaired by commit ac6ea40) flags used to be computed before pruneRevisions removed an old tombstoned branch; the stale flag stayed until the next accepted write
+				c04Fail(d.m.rec, "flags_agree", "branched-flag-stale-after-tombstoned-branch-pruned", input, fmt.Sprintf("stored Branched flag %v with %d leaves", obs.Fb, len(obs.Leaves)))
 			} else {
-				d.m.rec.Fail("flags_agree", where+":branched-flag-vs-leaves", input, fmt.Sprintf("stored Branched flag %v with %d leaves", obs.Fb, len(obs.Leaves)))
+				c04Fail(d.m.rec, "flags_agree", where+":branched-flag-vs-leaves", input, fmt.Sprintf("stored Branched flag %v with %d leaves", obs.Fb, len(obs.Leaves)))
 			}
 		}
 		if !d.allowC && live > 1 {
-			d.m.rec.Fail("no_conflict_mode_single_live_leaf", where+":conflict-in-conflict-free-mode", input, fmt.Sprintf("%d live leaves with allow_conflicts=false", live))
+			c04Fail(d.m.rec, "no_conflict_mode_single_live_leaf", where+":conflict-in-conflict-free-mode", input, fmt.Sprintf("%d live leaves with allow_conflicts=false", live))
 		}
 		if live > 0 {
 			if want, known := bodies[obs.Cur]; known && obs.BodyV != want {
-				d.m.rec.Fail("winner_body", where+":current-body-not-winners", input, fmt.Sprintf("current rev %s was written with v=%q, document body has v=%q", obs.Cur, want, obs.BodyV))
+				c04Fail(d.m.rec, "winner_body", where+":current-body-not-winners", input, fmt.Sprintf("current rev %s was written with v=%q, document body has v=%q", obs.Cur, want, obs.BodyV))
 			}
 		}
 	}
@@ -609,7 +620,7 @@ func TestVerifC04(t *testing.T) {
 		if err == nil {
 			g2, d2, err2 := parseRevID(strconv.Itoa(g) + "-" + d)
 			if g < 1 || err2 != nil || g2 != g || d2 != d {
-				rec.Fail("parse_canonical", "parse-revid", map[string]any{"in": s}, fmt.Sprintf("parsed (%d,%q), canonical form reparses to (%d,%q,%v)", g, d, g2, d2, err2))
+				c04Fail(rec, "parse_canonical", "parse-revid", map[string]any{"in": s}, fmt.Sprintf("parsed (%d,%q), canonical form reparses to (%d,%q,%v)", g, d, g2, d2, err2))
 			}
 		}
 	}
@@ -642,7 +653,7 @@ func TestVerifC04(t *testing.T) {
 				ab, ba := compareRevIDs(ctx, a, b), compareRevIDs(ctx, b, a)
 				rec.Count("random", "cmp_pair", a+"|"+b, a != b)
 				if ab != -ba || (ab == 0) != (a == b) {
-					rec.Fail("cmp_total_order", "compare-revids-not-antisymmetric-or-not-total", map[string]any{"a": a, "b": b}, fmt.Sprintf("cmp(a,b)=%d cmp(b,a)=%d", ab, ba))
+					c04Fail(rec, "cmp_total_order", "compare-revids-not-antisymmetric-or-not-total", map[string]any{"a": a, "b": b}, fmt.Sprintf("cmp(a,b)=%d cmp(b,a)=%d", ab, ba))
 				}
 				want := 0
 				if c04SpecLess(a, b) {
@@ -651,7 +662,7 @@ func TestVerifC04(t *testing.T) {
 					want = 1
 				}
 				if ab != want {
-					rec.Fail("cmp_total_order", "compare-revids-not-generation-then-digest", map[string]any{"a": a, "b": b}, fmt.Sprintf("cmp(a,b)=%d, (generation, digest) order says %d", ab, want))
+					c04Fail(rec, "cmp_total_order", "compare-revids-not-generation-then-digest", map[string]any{"a": a, "b": b}, fmt.Sprintf("cmp(a,b)=%d, (generation, digest) order says %d", ab, want))
 				}
 			}
 		}
@@ -714,7 +725,7 @@ func TestVerifC04(t *testing.T) {
 					if first == "" {
 						first, firstP = k, p
 					} else if k != first {
-						rec.Fail("order_independent", "insertion-order-changes-result", map[string]any{"revs": revs, "order1": firstP, "order2": p}, first+" vs "+k)
+						c04Fail(rec, "order_independent", "insertion-order-changes-result", map[string]any{"revs": revs, "order1": firstP, "order2": p}, first+" vs "+k)
 					}
 				}
 			}
@@ -821,7 +832,7 @@ func TestVerifC04(t *testing.T) {
 			k1 := c04Key([]any{o1.Fin, o1.Leaves, o1.W, o1.Br, o1.Cf, o1.Fd, o1.Fc, o1.Fb})
 			k2 := c04Key([]any{o2.Fin, o2.Leaves, o2.W, o2.Br, o2.Cf, o2.Fd, o2.Fc, o2.Fb})
 			if o1.AllAcc && o2.AllAcc && k1 != k2 {
-				rec.Fail("order_independent", "insertion-order-changes-result", map[string]any{"order1": seq1, "order2": seq2}, k1+" vs "+k2)
+				c04Fail(rec, "order_independent", "insertion-order-changes-result", map[string]any{"order1": seq1, "order2": seq2}, k1+" vs "+k2)
 			}
 		}
 
@@ -860,7 +871,7 @@ func TestVerifC04(t *testing.T) {
 			m.wf("prune", after, input)
 			m.winner("prune", pt, input)
 			if wAfter != wBefore {
-				rec.Fail("prune_keeps_winner", "prune-changes-winner", input, fmt.Sprintf("winner %q before, %q after", wBefore, wAfter))
+				c04Fail(rec, "prune_keeps_winner", "prune-changes-winner", input, fmt.Sprintf("winner %q before, %q after", wBefore, wAfter))
 			}
 			liveAfter := 0
 			for _, l := range c04LeafRevs(pt) {
@@ -869,10 +880,10 @@ func TestVerifC04(t *testing.T) {
 				}
 			}
 			if liveAfter != liveBefore {
-				rec.Fail("prune_keeps_live_leaves", "prune-changes-live-leaves", input, fmt.Sprintf("%d live leaves before, %d after", liveBefore, liveAfter))
+				c04Fail(rec, "prune_keeps_live_leaves", "prune-changes-live-leaves", input, fmt.Sprintf("%d live leaves before, %d after", liveBefore, liveAfter))
 			}
 			if pruned != len(before)-len(after) {
-				rec.Fail("prune_count", "prune-count-wrong", input, fmt.Sprintf("reported %d, removed %d", pruned, len(before)-len(after)))
+				c04Fail(rec, "prune_count", "prune-count-wrong", input, fmt.Sprintf("reported %d, removed %d", pruned, len(before)-len(after)))
 			}
 			// depth bound: no path from a leaf upwards is longer than max_depth
 			byID := map[string]c04Rev{}
@@ -891,7 +902,7 @@ func TestVerifC04(t *testing.T) {
 			}
 			for id, d := range minDepth {
 				if d > int(depth) {
-					rec.Fail("prune_depth_bound", "prune-leaves-node-too-deep", input, fmt.Sprintf("%s is %d levels above its nearest leaf", id, d))
+					c04Fail(rec, "prune_depth_bound", "prune-leaves-node-too-deep", input, fmt.Sprintf("%s is %d levels above its nearest leaf", id, d))
 				}
 			}
 		}
@@ -907,7 +918,7 @@ func TestVerifC04(t *testing.T) {
 		}
 		enc, err := ct.MarshalJSON()
 		if err != nil {
-			rec.Fail("codec_roundtrip", "marshal-error", map[string]any{"tree": before}, err.Error())
+			c04Fail(rec, "codec_roundtrip", "marshal-error", map[string]any{"tree": before}, err.Error())
 			continue
 		}
 		var rep struct {
@@ -918,7 +929,7 @@ func TestVerifC04(t *testing.T) {
 		_ = json.Unmarshal(enc, &rep)
 		var back RevTree
 		if err := (&back).UnmarshalJSON(enc); err != nil || len(rep.Revs) != len(ct) {
-			rec.Fail("codec_roundtrip", "unmarshal-error", map[string]any{"tree": before, "json": string(enc)}, fmt.Sprint(err))
+			c04Fail(rec, "codec_roundtrip", "unmarshal-error", map[string]any{"tree": before, "json": string(enc)}, fmt.Sprint(err))
 			continue
 		}
 		inOrder := make([]c04Rev, len(rep.Revs))
@@ -941,11 +952,11 @@ func TestVerifC04(t *testing.T) {
 		rec.Case("random", "codec", "CCodec "+c04TreeT(inOrder)+" "+cqList(ps)+" "+cqList(ds)+" "+c04TreeT(backSnap),
 			map[string]any{"tree": before, "json": string(enc)}, len(before) > 2)
 		if c04Key(backSnap) != c04Key(before) {
-			rec.Fail("codec_roundtrip", "reload-changed-tree", map[string]any{"tree": before, "json": string(enc)}, fmt.Sprintf("decoded %v", backSnap))
+			c04Fail(rec, "codec_roundtrip", "reload-changed-tree", map[string]any{"tree": before, "json": string(enc)}, fmt.Sprintf("decoded %v", backSnap))
 		}
 		for id, b := range bodyOf {
 			if back[id] == nil || string(back[id].Body) != b {
-				rec.Fail("codec_roundtrip", "reload-changed-body", map[string]any{"tree": before, "json": string(enc)}, "inline body of "+id+" lost")
+				c04Fail(rec, "codec_roundtrip", "reload-changed-body", map[string]any{"tree": before, "json": string(enc)}, "inline body of "+id+" lost")
 			}
 		}
 		// hand-built encodings: permuted arrays, some parents cut to -1, arbitrary deleted indexes
@@ -1086,7 +1097,7 @@ func TestVerifC04(t *testing.T) {
 					if firstK == "" {
 						firstK, firstP = k, c04Key(ops)
 					} else if k != firstK {
-						rec.Fail("db_order_independent", "push-order-changes-leaves-or-winner", map[string]any{"allow_conflicts": allowC, "forest": f, "order1": firstP, "order2": ops}, firstK+" vs "+k)
+						c04Fail(rec, "db_order_independent", "push-order-changes-leaves-or-winner", map[string]any{"allow_conflicts": allowC, "forest": f, "order1": firstP, "order2": ops}, firstK+" vs "+k)
 					}
 				}
 			}
@@ -1172,7 +1183,7 @@ func TestVerifC04(t *testing.T) {
 					k1 := c04Key([]any{last1.Leaves, last1.Cur, last1.Fd, last1.Fc, last1.Fb, last1.BodyV})
 					k2 := c04Key([]any{last2.Leaves, last2.Cur, last2.Fd, last2.Fc, last2.Fb, last2.BodyV})
 					if k1 != k2 {
-						rec.Fail("db_order_independent", "push-order-changes-leaves-or-winner", map[string]any{"allow_conflicts": allowC, "order1": ops1, "order2": ops2}, k1+" vs "+k2)
+						c04Fail(rec, "db_order_independent", "push-order-changes-leaves-or-winner", map[string]any{"allow_conflicts": allowC, "order1": ops1, "order2": ops2}, k1+" vs "+k2)
 					}
 				}
 			}
@@ -1180,8 +1191,8 @@ func TestVerifC04(t *testing.T) {
 		db.RevsLimit = origLimit
 	}
 	runDb(true, []uint32{100, 100, 3, 2})
-	// textual ids that are not in canonical form: accepted by the write path as distinct revisions although they
-	// compare equal, which makes the winner depend on map iteration order (the Coq model works on parsed ids)
+	// (defect repaired by commit 140db63) textual ids that are not in canonical form used to be accepted by the write path as
+	// distinct revisions although they compare equal, which made the winner depend on map iteration order; now they get 400
 	{
 		db, dctx := SetupTestDBWithOptions(t, DatabaseContextOptions{AllowConflicts: base.Ptr(true)})
 		col, dctx := GetSingleDatabaseCollectionWithUser(dctx, t, db)
@@ -1200,7 +1211,7 @@ func TestVerifC04(t *testing.T) {
 				seen[w]++
 			}
 			if len(seen) > 1 {
-				rec.Fail("winner_perm", "noncanonical-revids-compare-equal-winner-nondeterministic", map[string]any{"allow_conflicts": true, "pushes": pushes},
+				c04Fail(rec, "winner_perm", "noncanonical-revids-compare-equal-winner-nondeterministic", map[string]any{"allow_conflicts": true, "pushes": pushes},
 					fmt.Sprintf("both revisions accepted; winningRevision over 64 evaluations of the stored tree: %v (compareRevIDs(\"1-abc\",\"01-abc\")=%d)", seen, compareRevIDs(dctx, "1-abc", "01-abc")))
 			}
 		}
